@@ -893,3 +893,165 @@ Section DefaultRoleManager.
     intros x. split; [apply Permutation_in; exact PL|apply Permutation_in, Permutation_sym; exact PL].
   Qed.
 End DefaultRoleManager.
+
+(* ================= 8. the decision depends only on the SET of listed rules ================= *)
+(* ... not on the order in which rules and links were added, nor on detours (rules / links added
+   and removed again, links that were redundant when they were added). *)
+Section HistoryProofs.
+  Variable A : Type.
+  Variable A_eq_dec : forall a b : A, {a = b} + {a <> b}.
+  Notation sremove := (store_remove A A_eq_dec).
+
+  Lemma store_remove_in r y p : In y (sremove r p) -> In y p.
+  Proof.
+    induction p as [|x t IH]; cbn [store_remove]; [tauto|].
+    destruct (A_eq_dec r x) as [->|N]; intros H; [right; exact H|].
+    destruct H as [->|H]; [left; reflexivity|right; exact (IH H)].
+  Qed.
+
+  Lemma store_remove_nodup r p : NoDup p -> NoDup (sremove r p).
+  Proof.
+    induction 1 as [|x t Hx ND IH]; cbn [store_remove]; [constructor|].
+    destruct (A_eq_dec r x) as [->|N]; [exact ND|].
+    constructor; [|exact IH]. intros Hin. apply Hx. exact (store_remove_in r x t Hin).
+  Qed.
+
+  (* the listing never holds a rule twice, whatever the history *)
+  Lemma hrun_nodup h : forall l, NoDup l -> NoDup (hrun A A_eq_dec h l).
+  Proof.
+    induction h as [|o h IH]; intros l ND; [exact ND|]. cbn [hrun fold_left].
+    apply IH. destruct o as [x|x]; cbn [hstep]; [apply store_add_nodup|apply store_remove_nodup]; exact ND.
+  Qed.
+
+  (* two histories that end with the same members end with permutations of one list *)
+  Lemma hrun_same_set_perm h h' :
+    (forall x, In x (hrun A A_eq_dec h []) <-> In x (hrun A A_eq_dec h' [])) ->
+    Permutation (hrun A A_eq_dec h []) (hrun A A_eq_dec h' []).
+  Proof.
+    intros Hset. apply NoDup_Permutation; [apply hrun_nodup; constructor|apply hrun_nodup; constructor|exact Hset].
+  Qed.
+End HistoryProofs.
+
+Section HistoryDecisions.
+  Variables request rule : Type.
+  Variable rule_eq_dec : forall a b : rule, {a = b} + {a <> b}.
+  Variable eftcol : rule -> eft.
+  Variable blank_rule : rule.
+  Variables uses_p has_eval : bool.
+  Variables garg link : Type.
+  Variable link_eq_dec : forall a b : link, {a = b} + {a <> b}.
+  Variable g : list link -> garg -> bool.
+  Hypothesis g_mono : forall K K' a, incl K K' -> g K a = true -> g K' a = true.
+  Notation decl L e := (decide request rule (meval request rule garg (list link) g L e)
+                               eftcol blank_rule uses_p has_eval).
+
+  (* a monotone link relation is a function of the link SET *)
+  Lemma g_set_ext L L' : (forall x, In x L <-> In x L') -> forall a, g L a = g L' a.
+  Proof.
+    intros Hset a. destruct (g L a) eqn:E1, (g L' a) eqn:E2; try reflexivity.
+    - rewrite (g_mono L L' a) in E2; [discriminate| |exact E1]. intros x Hx. apply Hset, Hx.
+    - rewrite (g_mono L' L a) in E1; [discriminate| |exact E2]. intros x Hx. apply Hset, Hx.
+  Qed.
+
+  (* same listed rules (same order), link lists with the same members: the whole outcome —
+     decision, error flag, explanation — is the same, for EVERY effect, priority included *)
+  Theorem links_only_set (e : mexpr request rule garg) ef L L' p req :
+    (forall x, In x L <-> In x L') -> decl L e ef p req = decl L' e ef p req.
+  Proof.
+    intros Hset. apply decide_ext. intros rl. apply meval_ext. apply g_set_ext. exact Hset.
+  Qed.
+
+  (* two histories of add / remove calls for rules and for links that end with the same SETS of
+     listed rules and listed links: every error-free decision is the same *)
+  Theorem history_independent (e : mexpr request rule garg) ef
+          (hp hp' : list (hop rule)) (hg hg' : list (hop link)) req d d' :
+    order_insensitive_effect ef = true ->
+    (forall x, In x (hrun rule rule_eq_dec hp []) <-> In x (hrun rule rule_eq_dec hp' [])) ->
+    (forall x, In x (hrun link link_eq_dec hg []) <-> In x (hrun link link_eq_dec hg' [])) ->
+    ok (decl (hrun link link_eq_dec hg []) e ef (hrun rule rule_eq_dec hp []) req) d ->
+    ok (decl (hrun link link_eq_dec hg' []) e ef (hrun rule rule_eq_dec hp' []) req) d' ->
+    d = d'.
+  Proof.
+    intros He Hp Hg H H'.
+    exact (reload_other_order request rule eftcol blank_rule uses_p has_eval garg link g e ef _ _ _ _ req d d'
+             g_mono He (hrun_same_set_perm rule rule_eq_dec hp hp' Hp) Hg H H').
+  Qed.
+End HistoryDecisions.
+
+(* instances: the default role manager without patterns, with and without domains *)
+Section HistoryDefaultRoleManager.
+  Variables request rule : Type.
+  Variable rule_eq_dec : forall a b : rule, {a = b} + {a <> b}.
+  Variable eftcol : rule -> eft.
+  Variable blank_rule : rule.
+  Variables uses_p has_eval : bool.
+  Variable name : Type.
+  Variable name_eqb : name -> name -> bool.
+  Variable link_eq_dec : forall a b : name * name, {a = b} + {a <> b}.
+  Variable dom : Type.
+  Variable dom_eqb : dom -> dom -> bool.
+  Variable dlink_eq_dec : forall a b : name * name * dom, {a = b} + {a <> b}.
+  Notation hl := (has_link name name_eqb).
+  Notation hld := (has_link_dom name name_eqb dom dom_eqb).
+
+  Corollary has_link_set L L' a : (forall x, In x L <-> In x L') -> hl L a = hl L' a.
+  Proof.
+    intros Hset. apply (g_set_ext (name * name) (name * name) hl); [|exact Hset].
+    intros K K' b. apply has_link_monotone.
+  Qed.
+
+  Corollary has_link_dom_set L L' a : (forall x, In x L <-> In x L') -> hld L a = hld L' a.
+  Proof.
+    intros Hset. apply (g_set_ext (name * name * dom) (name * name * dom) hld); [|exact Hset].
+    intros K K' b. apply has_link_dom_monotone.
+  Qed.
+
+  Corollary history_independent_default (e : mexpr request rule (name * name)) ef hp hp' hg hg' req d d' :
+    order_insensitive_effect ef = true ->
+    (forall x, In x (hrun rule rule_eq_dec hp []) <-> In x (hrun rule rule_eq_dec hp' [])) ->
+    (forall x, In x (hrun (name * name) link_eq_dec hg []) <-> In x (hrun (name * name) link_eq_dec hg' [])) ->
+    ok (decide request rule (meval request rule (name * name) (list (name * name)) hl (hrun (name * name) link_eq_dec hg []) e)
+               eftcol blank_rule uses_p has_eval ef (hrun rule rule_eq_dec hp []) req) d ->
+    ok (decide request rule (meval request rule (name * name) (list (name * name)) hl (hrun (name * name) link_eq_dec hg' []) e)
+               eftcol blank_rule uses_p has_eval ef (hrun rule rule_eq_dec hp' []) req) d' ->
+    d = d'.
+  Proof.
+    apply (history_independent request rule rule_eq_dec eftcol blank_rule uses_p has_eval
+             (name * name) (name * name) link_eq_dec hl).
+    intros K K' a. apply has_link_monotone.
+  Qed.
+
+  Corollary history_independent_default_dom (e : mexpr request rule (name * name * dom)) ef hp hp' hg hg' req d d' :
+    order_insensitive_effect ef = true ->
+    (forall x, In x (hrun rule rule_eq_dec hp []) <-> In x (hrun rule rule_eq_dec hp' [])) ->
+    (forall x, In x (hrun (name * name * dom) dlink_eq_dec hg []) <-> In x (hrun (name * name * dom) dlink_eq_dec hg' [])) ->
+    ok (decide request rule (meval request rule (name * name * dom) (list (name * name * dom)) hld
+                                   (hrun (name * name * dom) dlink_eq_dec hg []) e)
+               eftcol blank_rule uses_p has_eval ef (hrun rule rule_eq_dec hp []) req) d ->
+    ok (decide request rule (meval request rule (name * name * dom) (list (name * name * dom)) hld
+                                   (hrun (name * name * dom) dlink_eq_dec hg' []) e)
+               eftcol blank_rule uses_p has_eval ef (hrun rule rule_eq_dec hp' []) req) d' ->
+    d = d'.
+  Proof.
+    apply (history_independent request rule rule_eq_dec eftcol blank_rule uses_p has_eval
+             (name * name * dom) (name * name * dom) dlink_eq_dec hld).
+    intros K K' a. apply has_link_dom_monotone.
+  Qed.
+End HistoryDefaultRoleManager.
+
+(* non-vacuity: the two histories of the "redundant link" shape.  Names 1 = alice, 2 = editor,
+   3 = admin.  History A adds 1->2, 2->3, 1->3 (redundant when added) and removes 2->3; history B
+   adds 1->3 and 1->2 only.  Both end with the link set {1->2, 1->3}; request 1 is granted by the
+   rule for 3 after both. *)
+Definition ex_link_dec : forall a b : nat * nat, {a = b} + {a <> b}.
+Proof. decide equality; apply Nat.eq_dec. Defined.
+Definition ex_hist_a : list (hop (nat * nat)) :=
+  [HAdd _ (1, 2); HAdd _ (2, 3); HAdd _ (1, 3); HRemove _ (2, 3)].
+Definition ex_hist_b : list (hop (nat * nat)) := [HAdd _ (1, 3); HAdd _ (1, 2)].
+Lemma history_nonvacuous :
+  hrun _ ex_link_dec ex_hist_a [] = [(1, 2); (1, 3)] /\
+  hrun _ ex_link_dec ex_hist_b [] = [(1, 3); (1, 2)] /\
+  ok (ex_ldec ex_pos (hrun _ ex_link_dec ex_hist_a []) AllowOverride [5; 3] 1) true /\
+  ok (ex_ldec ex_pos (hrun _ ex_link_dec ex_hist_b []) AllowOverride [3; 5] 1) true /\
+  ok (ex_ldec ex_pos [(1, 2)] AllowOverride [5; 3] 1) false.
+Proof. vm_compute. repeat split. Qed.
